@@ -14,6 +14,7 @@ KEYS = {
     'k-enc-2': bytes(range(133, 165)),
     'k-enc-16': bytes(range(65, 81)),
     'k-kek-1': bytes(range(201, 233)),
+    '': bytes(range(50, 82)),       # a key whose identifier is the empty byte string (a legal COSE kid)
 }
 MAC_ALGS = {5: 'HMAC256', 6: 'HMAC384', 7: 'HMAC512'}
 ENC_ALGS = {1: 'A128GCM', 3: 'A256GCM'}
@@ -138,7 +139,10 @@ def flip_in_result(asb, target_index, what, octet):
     elif what == 'kid':
         msg[1] = dict(msg[1])
         kid = bytearray(msg[1][rc.HDR_KID])
-        kid[octet % len(kid)] ^= 0x01
+        if kid:
+            kid[octet % len(kid)] ^= 0x01
+        else:
+            kid = bytearray(b'x')       # an empty identifier is altered by giving it an octet
         msg[1][rc.HDR_KID] = bytes(kid)
     elif what == 'iv':
         msg[1] = dict(msg[1])
